@@ -447,6 +447,7 @@ func checkCase(c Case) (Outcome, error) {
 		}
 		out.Expected = append(out.Expected, d...)
 	}
+	out.Expected = MergeModify(out.Expected)
 	from, err := gm.Build(c.Dialect, c.Base)
 	if err != nil {
 		return out, fmt.Errorf("harness: build base: %v", err)
@@ -500,4 +501,45 @@ func checkCase(c Case) (Outcome, error) {
 		return out, fmt.Errorf("%s %s-level diff is not exact\n  edits: %+v\n  reported:\n    %s\n  expected:\n    %s", c.Dialect, c.Level, c.Edits, multiset(got), multiset(want))
 	}
 	return out, nil
+}
+
+var kindOrder = []string{"null", "type", "default", "comment", "generated", "charset", "collate", "attr", "unique", "parts", "column", "refcolumn", "reftable", "onupdate", "ondelete"}
+
+// MergeModify folds several expected Modify{Column,Index,ForeignKey} descriptors of the same object into one
+// descriptor carrying the union of the kind flags: several elementary edits of one object are reported as one change.
+func MergeModify(ds []string) []string {
+	type acc struct {
+		idx   int
+		kinds map[string]bool
+	}
+	merged := map[string]*acc{}
+	var out []string
+	for _, d := range ds {
+		i := strings.Index(d, ":Modify")
+		j := strings.LastIndex(d, ",")
+		if i == -1 || j == -1 || !strings.HasSuffix(d, ")") || strings.Contains(d, "ModifyCheck") || strings.Contains(d, "ModifyAttr") || strings.Contains(d, "ModifyPrimaryKey") {
+			out = append(out, d)
+			continue
+		}
+		key := d[:j]
+		a, ok := merged[key]
+		if !ok {
+			a = &acc{idx: len(out), kinds: map[string]bool{}}
+			merged[key] = a
+			out = append(out, "")
+		}
+		for _, k := range strings.Split(d[j+1:len(d)-1], "+") {
+			a.kinds[k] = true
+		}
+	}
+	for key, a := range merged {
+		var ks []string
+		for _, k := range kindOrder {
+			if a.kinds[k] {
+				ks = append(ks, k)
+			}
+		}
+		out[a.idx] = key + "," + strings.Join(ks, "+") + ")"
+	}
+	return out
 }
